@@ -3,7 +3,8 @@
 proof:          lean/MPilot/Props/C03.lean
 correspondence: every data command, inputs with random masks (none/one/some/most) and adversarial hidden payloads
 oracles:        mask ⊇ union of input masks; extra missing cells only where the operation is undefined;
-                re-run with different hidden payloads under the same masks → identical visible result
+                re-run with different hidden payloads under the same masks → identical visible result;
+                histories: a writer (NetCDF / CSV EEMSWrite, PrintVars) between two evaluations of one command over the same fields - missing alike before and after
 """
 from .. import common, eems
 from . import numeric
@@ -152,6 +153,167 @@ def netcdf_round_trip(ctx):
         elif not numpy.allclose(numpy.ma.getdata(got)[~wm], numpy.ma.getdata(want)[~wm], rtol=1e-12, atol=0):
             ctx.fail("%s of a NetCDF variable: values changed between computing, writing and reading back" % cmd, desc)
 
+def writers_between(ctx):
+    """histories: an output command (NetCDF / CSV EEMSWrite, PrintVars to the screen or to a file) runs BETWEEN two evaluations of the same data command over the
+    same fields.  Writing is no data command: which cells of a result are missing is decided by the inputs alone, so the command evaluated after the write is
+    missing exactly where it was before - where one of its inputs is missing (as the fields stood when the model started) and nowhere else.  The written fields
+    are readers' fields and stored results of real commands, 2-4 of them with a real mask array / no mask array, each missing in a cell where the others are
+    not, listed in every rotation (each field is the first of the list once); directly on the bodies, and as whole Programs (read - compute - write - compute)"""
+    import contextlib
+    import io
+    import os
+    import numpy
+    from netCDF4 import Dataset
+    from mpilot.libraries.eems.netcdf.io import EEMSWrite as NcWrite
+    from mpilot.libraries.eems.csv.io import EEMSWrite as CsvWrite
+    from mpilot.libraries.eems.basic import PrintVars
+    from mpilot.program import Program, EEMS_NETCDF_LIBRARIES, EEMS_CSV_LIBRARIES
+    from . import c18
+    rng = eems._rng2(ctx)
+    tmp = common.tmpdir("mpv_c03w_")
+    orc = numeric.oracle_c03(ctx, payload_twin=False)
+    kinds = ["netcdf", "csv", "print", "netcdf", "printfile", "netcdf"]
+    one_in = [c for c in eems.COMMANDS if eems.COMMANDS[c][1] == "one" and c not in eems.ZSCORE and "MeanToMid" not in c]
+    many_in = [c for c in eems.COMMANDS if eems.COMMANDS[c][1] != "one"]
+    count = ctx.budget(30, 900)
+    i = 0
+    while i < count:
+        kind = kinds[i % len(kinds)]
+        shape = rng.choice([(6,), (2, 3), (3, 4), (2, 2, 2), (5, 2), (1, 4, 2)]) if kind == "netcdf" else (rng.choice([4, 6, 9]),)
+        n = int(numpy.prod(shape))
+        k = rng.randrange(2, 5)
+        fields, origin = [], []
+        for j in range(k):
+            dt = float if rng.random() < 0.75 else int
+            mask = eems.rand_mask(rng, n, rng.choice(["one", "some", "none"]))
+            for j2 in range(k):
+                mask[j2] = j2 == j                     # cell j is missing in field j and in no other
+            if j == k - 1 and rng.random() < 0.3:
+                mask = [False] * n                      # ... but for a last field in which nothing is missing (sometimes without a mask array)
+            vals = [dt(rng.choice(eems.FUZZY_LATTICE if dt is float else [-1, 0, 1])) for _ in range(n)]
+            a = eems.make_array(vals, mask, shape, dt, rng)
+            how = "a reader's field"
+            if rng.random() < 0.5:
+                # the stored result of a real command
+                pc = eems.gen_case(rng, rng.choice(["Copy", "FuzzyNot", "CvtToFuzzy", "FuzzyOr", "Sum", "CvtToFuzzyCat", "Normalize"]), style="valid", shape=shape, n=1, mask_style="none")
+                pc = eems.Case(pc.cmd, pc.params, [a] * len(pc.inputs))
+                po = eems.run_impl(pc)
+                if po["status"] == "ok" and isinstance(po["result"], numpy.ma.MaskedArray) and po["result"].shape == tuple(shape) and numpy.array_equal(numpy.ma.getmaskarray(po["result"]), numpy.ma.getmaskarray(a)):
+                    a, how = po["result"], "the result of " + pc.spec()
+            fields.append(a)
+            origin.append(how)
+        snaps = [a.copy() for a in fields]
+        cases = [eems.Case("Copy", {}, [a]) for a in fields]
+        cases.append(eems.Case(rng.choice(["Multiply", "Sum", "FuzzyAnd"]), {}, [fields[0], fields[0]]))
+        for _ in range(3):
+            cmd = rng.choice(one_in if rng.random() < 0.4 else many_in)
+            m = {"one": 1, "ab": 2}.get(eems.COMMANDS[cmd][1]) or rng.choice([1, 2, 2, 3])
+            if cmd == "FuzzyXOr":
+                m = max(m, 2)
+            ins = [rng.choice(fields) for _ in range(m)]
+            cases.append(eems.Case(cmd, eems.gen_params(rng, cmd, ins, "valid"), ins))
+        before = []
+        for c in cases:
+            o = eems.run_impl(c, copy_inputs=False)
+            orc(c, o, None)
+            before.append(o)
+        rot = i // len(kinds) % k
+        order = list(range(k))[rot:] + list(range(k))[:rot]
+        prods = [eems.Producer(fields[j], "f%d" % j, False) for j in order]
+        try:
+            with contextlib.redirect_stdout(io.StringIO()):
+                if kind == "netcdf":
+                    tpl, outp = os.path.join(tmp, "tpl%d.nc" % (i % 4)), os.path.join(tmp, "out%d.nc" % (i % 4))
+                    c18.make_template(tpl, shape, rng)
+                    if os.path.exists(outp):
+                        os.remove(outp)
+                    NcWrite("W", []).execute(OutFileName=outp, OutFieldNames=prods, DimensionFileName=tpl, DimensionFieldName="elev")
+                elif kind == "csv":
+                    CsvWrite("W", []).execute(OutFileName=os.path.join(tmp, "out%d.csv" % (i % 4)), OutFieldNames=prods)
+                elif kind == "print":
+                    PrintVars("P", []).execute(InFieldNames=prods)
+                else:
+                    PrintVars("P", []).execute(InFieldNames=prods, OutFileName=os.path.join(tmp, "vars%d.txt" % (i % 4)))
+            outcome = "done"
+        except Exception as e:           # noqa  (a writer that fails is not this check's business; what the fields are afterwards is)
+            outcome = "failed with " + type(e).__name__
+        ctx.case("write-between %s %r %r %r" % (kind, shape, order, [c.line() for c in cases]), sample=None)
+        ctx.count("c03_write_between:" + kind)
+        ctx.count("c03_write_between_outcome:" + outcome.split(" ")[0])
+        i += 1
+        for c, o1 in zip(cases, before):
+            o2 = eems.run_impl(c, copy_inputs=False)
+            desc = dict(eems.Case(c.cmd, c.params, [snaps[[id(f) for f in fields].index(id(a))] for a in c.inputs]).describe(),
+                        sequence="%d fields written with %s (%s) in the order %r, the command evaluated over the same fields before and after" % (k, kind, outcome, order),
+                        fields=["f%d: %s; missing cells %r" % (j, origin[j], numpy.ma.getmaskarray(snaps[j]).astype(int).ravel().tolist()) for j in range(k)],
+                        uses=[[id(f) for f in fields].index(id(a)) for a in c.inputs])
+            d = numeric.same_outcome(o1, o2)
+            if d and o1["status"] == "ok" and o2["status"] == "ok" and o1["vis"][3] is not None and o2["vis"][3] is not None and len(o1["vis"][3]) == len(o2["vis"][3]):
+                gone = [q for q, (x, y) in enumerate(zip(o1["vis"][3], o2["vis"][3])) if (x is None) != (y is None)]
+                if gone:
+                    q = gone[0]
+                    union = [any(numpy.ma.getmaskarray(snaps[u]).ravel()[q] for u in desc["uses"])]
+                    ctx.fail("%s over fields %r, evaluated after a %s write of the fields %r: cell %d is %s - before the write the same command over the same fields had it %s; "
+                             "the cell is missing in %s of its inputs" % (c.cmd, desc["uses"], kind, order, q, "missing" if o2["vis"][3][q] is None else "present (%r)" % o2["vis"][3][q],
+                                                                         "missing" if o1["vis"][3][q] is None else "present (%r)" % o1["vis"][3][q], "one" if union[0] else "none"), desc)
+                    break
+            if d:
+                ctx.fail("%s over fields %r gives another outcome after a %s write of the fields %r than before it (%s)" % (c.cmd, desc["uses"], kind, order, d), desc)
+                break
+    # whole Programs: variables read from a dataset / columns read from a table, commands over them, the write, the same commands again (leaves are run in
+    # the order in which they are written down, every field is read once): After_x is missing exactly where Before_x is
+    calls = ["Copy(InFieldName = A)", "Multiply(InFieldNames = [A, A])", "Sum(InFieldNames = [A, B])", "Maximum(InFieldNames = [C, A, B])", "Copy(InFieldName = B)",
+             "CvtToFuzzy(InFieldName = A, TrueThreshold = 10, FalseThreshold = 0)", "Normalize(InFieldName = C)", "ADividedByB(A = C, B = A)", "AMinusB(A = B, B = C)", "Mean(InFieldNames = [C, C])"]
+    for lib in ("netcdf", "csv"):
+        for rot in range(3):
+            shape = rng.choice([(3, 4), (2, 6), (12,)]) if lib == "netcdf" else (12,)
+            d = os.path.join(tmp, "prog_%s%d" % (lib, rot))
+            os.makedirs(d, exist_ok=True)
+            cols = {}
+            for j, nm in enumerate("abc"):
+                m = numpy.array(eems.rand_mask(rng, 12, rng.choice(["one", "some"])))
+                m[:3] = [q == j for q in range(3)]
+                cols[nm] = numpy.ma.array(numpy.array([float(rng.randrange(1, 20)) for _ in range(12)]).reshape(shape), mask=m.reshape(shape))
+            listed = ["A", "B", "C"][rot:] + ["A", "B", "C"][:rot]
+            if lib == "netcdf":
+                dims = ["d%d" % q for q in range(len(shape))]
+                with Dataset(os.path.join(d, "in.nc"), "w") as ds:
+                    for dn, sz in zip(dims, shape):
+                        ds.createDimension(dn, sz)
+                        ds.createVariable(dn, "f8", (dn,))[:] = [1.5 * (q + 1) for q in range(sz)]
+                    for nm in "abc":
+                        ds.createVariable(nm, "f8", tuple(dims), fill_value=-9999.0)[:] = cols[nm]
+                src = "".join('%s = EEMSRead(InFileName = "in.nc", InFieldName = %s)\n' % (nm.upper(), nm) for nm in "abc")
+                wr = 'W = EEMSWrite(OutFileName = "out.nc", OutFieldNames = [%s], DimensionFileName = "in.nc", DimensionFieldName = a)\n' % ", ".join(listed)
+            else:
+                with open(os.path.join(d, "in.csv"), "w") as f:
+                    f.write("a,b,c\n" + "".join(",".join("-9999" if numpy.ma.getmaskarray(cols[nm])[q] else repr(float(cols[nm].data[q])) for nm in "abc") + "\n" for q in range(12)))
+                src = "".join('%s = EEMSRead(InFileName = "in.csv", InFieldName = %s, MissingVal = -9999)\n' % (nm.upper(), nm) for nm in "abc")
+                wr = 'W = EEMSWrite(OutFileName = "out.csv", OutFieldNames = [%s])\n' % ", ".join(listed)
+            wr += 'P = PrintVars(InFieldNames = [%s], OutFileName = "vars.txt")\n' % ", ".join(reversed(listed))
+            src += "".join("Before%d = %s\n" % (q, c) for q, c in enumerate(calls)) + wr + "".join("After%d = %s\n" % (q, c) for q, c in enumerate(calls))
+            desc = {"source": src, "fields": {nm: repr(cols[nm].tolist()) for nm in "abc"}, "shape": list(shape)}
+            ctx.case("write-between-program %s %d %r" % (lib, rot, desc["fields"]), sample={"source": src})
+            ctx.count("c03_write_between_programs")
+            try:
+                with numpy.errstate(all="ignore"), contextlib.redirect_stdout(io.StringIO()):
+                    p = Program.from_source(src, libraries=EEMS_NETCDF_LIBRARIES if lib == "netcdf" else EEMS_CSV_LIBRARIES, working_dir=d)
+                    p.run()
+                    res = {nm: p.commands[nm].result for nm in p.commands if nm.startswith(("Before", "After"))}
+            except Exception as e:
+                ctx.fail("a Program that reads three fields, computes, writes them (%s) and computes again fails: %s %s" % (lib, type(e).__name__, str(e)[:160]), desc)
+                continue
+            for q, c in enumerate(calls):
+                b, a = res["Before%d" % q], res["After%d" % q]
+                bm, am = numpy.ma.getmaskarray(b), numpy.ma.getmaskarray(a)
+                if b.shape != a.shape or not numpy.array_equal(bm, am):
+                    ctx.fail("in a Program (%s library) %s evaluated after EEMSWrite / PrintVars of [%s] is missing at cells %r, evaluated before them at cells %r (same command, same fields)" % (
+                        lib, c, ", ".join(listed), numpy.flatnonzero(am.ravel()).tolist(), numpy.flatnonzero(bm.ravel()).tolist()), desc)
+                    break
+                if not numpy.allclose(numpy.ma.getdata(a)[~am], numpy.ma.getdata(b)[~bm], rtol=1e-9, atol=1e-9):
+                    ctx.fail("in a Program (%s library) %s evaluated after EEMSWrite / PrintVars of [%s] gives other values than evaluated before them" % (lib, c, ", ".join(listed)), desc)
+                    break
+
 
 def run(ctx):
     ctx.check_proofs(["MPilot.Props.C03"])
@@ -163,6 +325,7 @@ def run(ctx):
     numeric.focus_search(ctx, model, lambda cmds, f: gen(ctx, cmds, n * f), orc)
     readers(ctx)
     netcdf_round_trip(ctx)
+    writers_between(ctx)
     return ctx.finish(
         rule="cases = (data command, parameters, inputs with masks none/one/some/most and adversarial hidden payloads ±1e20, "
              "category keys, control points); each masked case is re-run with different payloads; distinct by protocol line; "
